@@ -59,6 +59,9 @@ def run(ctx):
         ctx.run_rule("R5-server-binding", r5_server, F)
         ctx.run_rule("R6-readdirplus-refs", c08.r2_readdir, F)
         ctx.run_rule("R7-wrappers", r7_wrappers, F)
+        # with or without opendir: the mode each layer runs in is the one negotiated for OPENDIR (C12.R5)
+        from rules import c12
+        ctx.run_rule("R5-toggles", c12.r5_toggles, F, json.load(open(c12.TABLE)))
     finally:
         vf.NOUPD[0] = False
         vf.NOCAST[0] = False
